@@ -47,4 +47,31 @@ for et in ElemType:
                                    "pts": [[ratio(x) for x in p] for p in g.coord], "w": [ratio(w) for w in g.weights]})
         except Exception as ex:
             out["errors"].append("Gauss(%s, %s) raises %s: %s" % (et.name, mt.name, type(ex).__name__, ex))
+# the rules as element GROUPS obtain them (Get_gauss / Get_weight_pg), for every type in one
+# process, in the order given on the command line (a shared cache must not leak between types)
+from EasyFEA.FEM._group_elem import GroupElemFactory
+order = list(ElemType)
+if len(sys.argv) > 1 and sys.argv[1] == "rev":
+    order = order[::-1]
+out["group_order"] = [e.name for e in order]
+out["group"] = []
+for et in order:
+    if et == ElemType.POINT:
+        continue
+    gid, nPe, dim = GroupElemFactory.DICT_ELEMTYPE[et][:3]
+    cls = GroupElemFactory.GROUP_CLASS_MAP[et]
+    g0 = cls(gid, np.arange(nPe).reshape(1, -1), np.zeros((nPe, 3)))
+    loc = np.asarray(g0.Get_Local_Coords(), dtype=float)
+    coords = np.zeros((nPe, 3)); coords[:, :dim] = loc
+    g = cls(gid, np.arange(nPe).reshape(1, -1), coords)
+    mts = [MatrixType.rigi, MatrixType.mass] + ([MatrixType.beam, MatrixType.beam_shear] if et in ElemType.Get_1D() else [])
+    for mt in mts:
+        try:
+            gs = g.Get_gauss(mt)
+            w = np.asarray(g.Get_weight_pg(mt)).ravel()
+            out["group"].append({"elem": et.name, "matrix": mt.name, "npg": int(gs.nPg),
+                                 "pts": [[ratio(x) for x in p] for p in gs.coord], "w": [ratio(x) for x in gs.weights],
+                                 "w_pg": [ratio(x) for x in w]})
+        except Exception as ex:
+            out["errors"].append("group %s Get_gauss(%s) raises %s: %s" % (et.name, mt.name, type(ex).__name__, ex))
 json.dump(out, sys.stdout)
